@@ -146,13 +146,14 @@ type Enc struct {
 	heapRec  map[string]string // when non-nil: records the heap arrays read (opaque spec functions)
 	lazy     map[*ssa.Alloc]bool // heap-allocated local variables modelled as locals until their address escapes
 	cur      *cursor             // cursor of the instruction being encoded (for on-demand materialisation)
+	privSlice map[*ssa.Alloc]bool
 	lazyRefs []Val               // pointers to not-yet-materialised locals parked in local pointer variables ("@lazy!<i>")
 }
 
 func newEnc(m *Model, fn *ssa.Function, c *Contract) *Enc {
 	return &Enc{m: m, top: fn, topName: m.fnName[fn], contract: c, declared: map[string]bool{}, lits: map[string]string{},
 		heaps: map[string]*heapDecl{}, ordinals: map[string]int{}, specFnDeclared: map[string]bool{},
-		assumedCallees: map[string]bool{}, inlined: map[string]bool{}, havocked: map[string]bool{}, freshAddrs: map[string]bool{}, tinvSeen: map[string]bool{}, explicitAssumes: map[string]bool{}, lazy: map[*ssa.Alloc]bool{}}
+		assumedCallees: map[string]bool{}, inlined: map[string]bool{}, havocked: map[string]bool{}, freshAddrs: map[string]bool{}, tinvSeen: map[string]bool{}, explicitAssumes: map[string]bool{}, lazy: map[*ssa.Alloc]bool{}, privSlice: map[*ssa.Alloc]bool{}}
 }
 
 func (e *Enc) declare(line string) { e.decls = append(e.decls, line) }
@@ -1062,6 +1063,71 @@ func (e *Enc) selfGrownSlice(fn *ssa.Function, a *ssa.Alloc) bool {
 		}
 	}
 	return n > 0
+}
+
+// privateSlice: a self-grown local slice (selfGrownSlice) whose value is otherwise only measured,
+// indexed, ranged over or returned.  No callee can hold a pointer into its backing array before the
+// function returns, so calls leave its elements alone.
+func (e *Enc) privateSlice(fn *ssa.Function, a *ssa.Alloc) bool {
+	if v, ok := e.privSlice[a]; ok {
+		return v
+	}
+	res := e.selfGrownSlice(fn, a)
+	if res {
+	outer:
+		for _, ref := range *a.Referrers() {
+			ld, ok := ref.(*ssa.UnOp)
+			if !ok {
+				continue
+			}
+			for _, use := range *ld.Referrers() {
+				switch u := use.(type) {
+				case *ssa.Call:
+					if b, ok := u.Call.Value.(*ssa.Builtin); ok && (b.Name() == "len" || b.Name() == "cap" || (b.Name() == "append" && u.Call.Args[0] == ssa.Value(ld))) {
+						continue
+					}
+					res = false
+					break outer
+				case *ssa.IndexAddr, *ssa.Range, *ssa.Return, *ssa.DebugRef:
+				case *ssa.Store:
+					// copied into an unnamed result slot on the way to a return
+					if slot, ok := u.Addr.(*ssa.Alloc); ok && !slot.Heap && slot.Comment == "" && u.Val == ssa.Value(ld) {
+						continue
+					}
+					res = false
+					break outer
+				default:
+					res = false
+					break outer
+				}
+			}
+		}
+	}
+	e.privSlice[a] = res
+	return res
+}
+
+// preservePrivateSlices: after a call, the elements of private local slices are what they were before.
+func (e *Enc) preservePrivateSlices(cur *cursor, pre *State) {
+	fn := cur.fc.fn
+	for a, sl := range cur.st.loc {
+		if a.Parent() != fn || !e.privateSlice(fn, a) {
+			continue
+		}
+		st, ok := a.Type().(*types.Pointer).Elem().Underlying().(*types.Slice)
+		if !ok {
+			continue
+		}
+		leaves := map[string]string{}
+		e.m.cellLeaves(st.Elem(), leaves)
+		for _, ln := range sortedKeys(leaves) {
+			now, was := e.heapGet(cur.st, ln, leaves[ln]), e.heapGet(pre, ln, leaves[ln])
+			if now == was {
+				continue
+			}
+			e.assume(cur.guard, fmt.Sprintf("(forall ((k Int)) (! (=> (and (<= 0 k) (< k (sl_cap %s))) (= (select %s %s) (select %s %s))) :pattern ((select %s %s))))", sl, now, selemT(sl, "k"), was, selemT(sl, "k"), now, selemT(sl, "k")))
+		}
+	}
 }
 
 func (e *Enc) rangeIndexFacts(fc *fctx, l *loopInfo, guard string, st *State) {
